@@ -318,6 +318,10 @@ func (c *producerConfigMapped) finalizemapDest(v *MapConfigBase) error {
 
 		v.ProtoArray = vv.Array
 	}
+	// a destination may name a column of the flow message by its documented (JSON) name
+	if goName, ok := c.Formatter.reMap[v.Destination]; ok && goName != "" {
+		v.Destination = goName
+	}
 	return nil
 }
 
